@@ -470,6 +470,8 @@ class Ref:
         return "ok"
 
     def t_remove_reactions(self, op, env):
+        if op.get("bad_tail"):
+            return "unknown"  # raises part-way: how much was removed is not documented; the invariants judge the result
         for rid in op["rs"]:
             if rid in self.rxns:
                 self._remove_rxn(rid, op.get("remove_orphans", False))
@@ -712,6 +714,7 @@ class Ref:
     t_repair = t_optimize
     t_solver = t_optimize
     t_det_mutate = t_optimize  # a detached object is edited: no model may change
+    t_removed_mutate = t_optimize  # a removed reaction object is edited: the model it came from must not change
     t_prune = t_optimize  # returns a new model; the input is left alone
     t_config_bounds = t_optimize  # a process-global default: no model changes
 
